@@ -18,11 +18,13 @@ Oracle : documented semantics (computation "Stages" 1/24, programming/simulation
            equals (reset state stepped once).
          * never a sanitizer report / process death (ASan build in supervised workers), engine stack pointers unchanged.
 """
+import re
 import threading
 
 from vf import asanproc
 
 KNOWN_FD = 'C30:mjd_stepFD-autoreset-inside-open-stack-frame'
+KNOWN_TRN = 'C30:mj_transmission-moment-overrun-on-nonfinite-state'
 
 
 def main(ck):
@@ -48,6 +50,9 @@ def main(ck):
                        nsteps=200))
   jobs_asan.append(dict(family='unstable', variant='asan', tier=ck.tier, seed=ck.seed, shard=0, n=ck.budget(10, 300),
                         nsteps=60))
+  jobs_rel.append(dict(family='forward', variant='rel', tier=ck.tier, seed=ck.seed, shard=0, n=ck.budget(150, 6000)))
+  for s_ in range(1 if q else 4):
+    jobs_asan.append(dict(family='forward', variant='asan', tier=ck.tier, seed=ck.seed, shard=s_, n=ck.budget(60, 4000) // (1 if q else 4)))
   jobs_rel.append(dict(family='fd', variant='rel', tier=ck.tier, seed=ck.seed, shard=0, n=ck.budget(12, 300)))
   jobs_asan.append(dict(family='fd', variant='asan', tier=ck.tier, seed=ck.seed, shard=0, n=ck.budget(6, 100)))
   from vf import build as vb
@@ -80,14 +85,22 @@ def main(ck):
       else:
         if fp and not (res['frame'] and 'engine_derivative_fd' in (res['report'] or '')):
           fp = None
+        if re.search(r'in mj_transmission ', res['report'] or '') and res['kind'] in ('use-after-poison', 'heap-buffer-overflow'):
+          fp = KNOWN_TRN
         ck.violation('worker process died (%s, rc=%s) in family %s @ %s\n%s' % (
             res['kind'], res['rc'], job['family'], res['frame'], (res['report'] or res['stderr'])[:3000]),
             dict(job=job, journal=res.get('journal'), report=res['report'][:6000]),
             bucket='%s:%s:%s' % (job['family'], res['kind'], res['frame']), fingerprint=fp)
         if fp:
           # known finding: count the journaled case as an executed, non-trivial one
-          ck.case(nontrivial=True, key=('fd-crash', job['variant'], res.get('journal')), sample=res.get('journal'),
-                  labels=['fd', 'fd:sanitizer-report'])
+          j = dict(res.get('journal') or {})
+          j['xml'] = (j.get('xml') or '')[:300]
+          ck.case(nontrivial=True, key=('crash', job['family'], job['variant'], res.get('journal')), sample=j,
+                  labels=[job['family'], job['family'] + ':sanitizer-report'])
+          # the worker died with the rest of its shard: run the remaining budget in a fresh worker
+          if job['family'] != 'fd' and job.get('retries', 0) < 3:
+            retry.append(dict(job, shard=job['shard'] + 100 * (job.get('retries', 0) + 1), retries=job.get('retries', 0) + 1,
+                              n=max(10, job['n'] // 2)))
 
 
 LEVEL = 'exploration'
